@@ -364,6 +364,12 @@ func (obj *SparseConstIntVectorJointIterator) Ok() bool {
          !(obj.s2.GetInt() == int(0))
 }
 func (obj *SparseConstIntVectorJointIterator) Next() {
+  // skip positions where all operands are zero; stop when all
+  // iterators are exhausted
+  for obj.next() && !obj.Ok() {
+  }
+}
+func (obj *SparseConstIntVectorJointIterator) next() bool {
   ok1 := obj.it1.Ok()
   ok2 := obj.it2.Ok()
   obj.s1 = ConstInt(0)
@@ -390,6 +396,7 @@ func (obj *SparseConstIntVectorJointIterator) Next() {
   } else {
     obj.s2 = ConstInt(0.0)
   }
+  return ok1 || ok2
 }
 func (obj *SparseConstIntVectorJointIterator) GetConst() (ConstScalar, ConstScalar) {
   return obj.s1, obj.s2
